@@ -364,7 +364,8 @@ def _read_returns_section(
         text = dedent("\n".join(item[1:])).rstrip()
         if annotation is None:
             # try to retrieve the annotation from the docstring parent
-            with suppress(AttributeError, KeyError, ValueError):
+            # IndexError: more documented items than elements in the annotated tuple.
+            with suppress(AttributeError, KeyError, ValueError, IndexError):
                 if docstring.parent.is_function:  # type: ignore[union-attr]
                     annotation = docstring.parent.returns  # type: ignore[union-attr]
                 elif docstring.parent.is_attribute:  # type: ignore[union-attr]
